@@ -2,6 +2,7 @@
 //! inputs/outputs in the canonical JSON defined in conv.rs. One JSON document per input line.
 mod conv;
 mod domain;
+mod pi;
 
 use cwe_checker_lib::intermediate_representation::*;
 use serde_json::{json, Value};
@@ -144,6 +145,7 @@ fn main() {
         let r = match cmd {
             "domain" => catch_unwind(AssertUnwindSafe(|| domain::cmd_domain(&v))).unwrap_or_else(|p| json!({"panic": panic_msg(p)})),
             "fmt" => catch_unwind(AssertUnwindSafe(|| cmd_fmt(&v))).unwrap_or_else(|p| json!({"panic": panic_msg(p)})),
+            "pi" => catch_unwind(AssertUnwindSafe(|| pi::cmd_pi(&v))).unwrap_or_else(|p| json!({"panic": panic_msg(p)})),
             "lift" => catch_unwind(AssertUnwindSafe(|| cmd_lift(&v))).unwrap_or_else(|p| json!({"panic": panic_msg(p)})),
             "optimize" => catch_unwind(AssertUnwindSafe(|| cmd_optimize(&v))).unwrap_or_else(|p| json!({"panic": panic_msg(p)})),
             _ => json!({"error": "unknown command"}),
